@@ -6,7 +6,7 @@ schedule does (`GI.runOps`).
 namespace Backend.PB
 open Backend
 
-variable {fl : Nat} {T : Nat → Prop} {C : List Nat} {s : BSt} {inj : BSt → Nat → BSt}
+variable {c : Cfg} {fl : Nat} {T : Nat → Prop} {C : List Nat} {s : BSt} {inj : BSt → Nat → BSt}
 
 /-! ### a pass over the cached contexts -/
 
@@ -15,59 +15,89 @@ def popStep (inj : BSt → Nat → BSt) (tsNow : Option Nat) (acc : BSt × Nat) 
   let sB := readQueue inj tsNow i ((sA.th i).qStmts.length + 64) 0 sA
   (sB, acc.2 + (sB.th i).buf.length)
 
-theorem populate_fold (hi : InjOK inj) (l : List Nat) : ∀ (acc : BSt × Nat) (T : Nat → Prop), (∀ i ∈ l, i ∈ C) →
-    PI none fl T C acc.1 → PI none fl (fun j => T j ∧ j ∉ l) C (l.foldl (popStep inj (some fl)) acc).1 := by
+theorem populate_fold (hi : InjOK inj) (tsNow : Option Nat)
+    (htn : c.grace ≠ 0 → c.refreshAfterSample = true → tsNow = some fl) (l : List Nat) :
+    ∀ (acc : BSt × Nat) (T : Nat → Prop), (∀ i ∈ l, i ∈ C) →
+    PI c none fl T C acc.1 → PI c none fl (fun j => T j ∧ j ∉ l) C (l.foldl (popStep inj tsNow) acc).1 := by
   induction l with
   | nil =>
     intro acc T _ h
-    exact { h with ord := fun hp => { h.ord hp with
-      late := fun j hj hT => (h.ord hp).late j hj (fun ht => hT ⟨ht, by simp⟩) } }
+    exact { h with ord := fun hg0 hr0 hp => { h.ord hg0 hr0 hp with
+      late := fun j hj hT => (h.ord hg0 hr0 hp).late j hj (fun ht => hT ⟨ht, by simp⟩) } }
   | cons x xs ih =>
     intro acc T hl h
     rw [List.foldl_cons]
-    have h1 := hi _ _ _ _ 2 h
-    have h2 : PI none fl (fun j => T j ∧ j ≠ x) C (popStep inj (some fl) acc x).1 := by
+    have h1 := hi _ _ _ _ _ 2 h
+    have h2 : PI c none fl (fun j => T j ∧ j ≠ x) C (popStep inj tsNow acc x).1 := by
       unfold popStep
       simp only
       rw [show ((inj acc.1 2).th x).qStmts.length + 64 = (((inj acc.1 2).th x).qStmts.length + 63) + 1 from rfl]
-      exact h1.readQueue_first hi x (hl x (List.mem_cons_self ..)) _ _ _
+      exact h1.readQueue_first hi tsNow htn x (hl x (List.mem_cons_self ..)) _ _ _
     have h3 := ih _ _ (fun i hi' => hl i (List.mem_cons_of_mem _ hi')) h2
-    exact { h3 with ord := fun hp => { h3.ord hp with
-      late := fun j hj hT => (h3.ord hp).late j hj (fun ht => hT ⟨ht.1.1, by
+    exact { h3 with ord := fun hg0 hr0 hp => { h3.ord hg0 hr0 hp with
+      late := fun j hj hT => (h3.ord hg0 hr0 hp).late j hj (fun ht => hT ⟨ht.1.1, by
         intro hm; rcases List.mem_cons.mp hm with e | e
         · exact ht.1.2 e
         · exact ht.2 e⟩) } }
 
-theorem populate_eq (inj : BSt → Nat → BSt) (s : BSt) (hg : s.cfg.grace ≠ 0) (hr : s.cfg.refreshAfterSample = true)
-    (hg7 : (inj s 7).cfg.grace ≠ 0) (hr7 : (inj s 7).cfg.refreshAfterSample = true) :
-    populate inj s = (refreshCache (inj (inj s 7) 1)).cache.foldl
-      (popStep inj (some ((inj s 7).now - (inj s 7).cfg.grace))) (refreshCache (inj (inj s 7) 1), 0) := by
-  unfold Backend.populate tsNowOf
-  simp only [hr, if_true, hg, if_false, hg7, hr7]
-  rfl
+/-- the stages of `populate` before the pass over the cache -/
+def popA (s : BSt) : BSt := if s.cfg.refreshAfterSample then s else refreshCache s
+def popB (inj : BSt → Nat → BSt) (s : BSt) : BSt := if (popA s).cfg.grace = 0 then popA s else inj (popA s) 7
+def popC (inj : BSt → Nat → BSt) (s : BSt) : BSt :=
+  if (popB inj s).cfg.refreshAfterSample then refreshCache (inj (popB inj s) 1) else inj (popB inj s) 1
+
+theorem populate_eq (inj : BSt → Nat → BSt) (s : BSt) :
+    populate inj s = (popC inj s).cache.foldl (popStep inj (tsNowOf (popB inj s))) (popC inj s, 0) := rfl
+
+/-- outside the configuration C05 speaks about, nothing is claimed about unread queues -/
+theorem PI.anyT {ex : Option Nat} {T' : Nat → Prop} (h : PI c ex fl T C s)
+    (hb : ¬ (c.grace ≠ 0 ∧ c.refreshAfterSample = true)) : PI c ex fl T' C s :=
+  { h with ord := fun hg0 hr0 _ => absurd ⟨hg0, hr0⟩ hb }
 
 /-- after a complete pass every registered context with an empty buffer holds only records at or above the
-    cut-off sampled at the start of the pass -/
-theorem PIo.populate (hi : InjOK inj) (h : PIo fl s) :
-    ∃ fl' C', PI none fl' (fun _ => False) C' (populate inj s).1 := by
-  have h7 := hi _ _ _ _ 7 h
-  rw [populate_eq inj s h.grace h.ras h7.grace h7.ras]
-  generalize inj s 7 = sa at h7
-  let fl' := sa.now - sa.cfg.grace
-  have h7' : PI none fl' (fun _ => True) s.cache sa := h7.newFloor fl' h7.floorNow (Nat.le_refl _)
-  have h1 := hi _ _ _ _ 1 h7'
-  generalize inj sa 1 = s1 at h1
-  have h2 := h1.refresh
-  have h3 := populate_fold hi (refreshCache s1).cache (refreshCache s1, 0) _ (fun i hi' => hi') h2
-  exact ⟨fl', _, h3.weakenT (fun j hj => hj.2 hj.1.2)⟩
+    cut-off sampled at the start of the pass (in the configuration of C05; the structural part of the invariant is
+    kept in every configuration) -/
+theorem PIo.populate (hi : InjOK inj) (h : PIo c fl s) :
+    ∃ fl' C', PI c none fl' (fun _ => False) C' (populate inj s).1 := by
+  rw [populate_eq]
+  unfold popC
+  have ha : PIo c fl (popA s) := by
+    unfold popA; split
+    · exact h
+    · exact h.refresh
+  have hb : PIo c fl (popB inj s) := by
+    unfold popB; split
+    · exact ha
+    · exact hi.pio ha 7
+  generalize popB inj s = sb at hb ⊢
+  have hcfg : sb.cfg = c := hb.cfgEq
+  let fl' := sb.now - sb.cfg.grace
+  have hb' : PI c none fl' (fun _ => True) sb.cache sb := hb.newFloor fl' hb.floorNow (Nat.le_refl _)
+  have htn : c.grace ≠ 0 → c.refreshAfterSample = true → tsNowOf sb = some fl' := by
+    intro hg0 _
+    unfold tsNowOf
+    rw [if_neg (by rw [hcfg]; exact hg0)]
+  have h1 := hi _ _ _ _ _ 1 hb'
+  have h2 : PI c none fl' (fun i => i ∈ (if sb.cfg.refreshAfterSample = true then refreshCache (inj sb 1) else inj sb 1).cache)
+      (if sb.cfg.refreshAfterSample = true then refreshCache (inj sb 1) else inj sb 1).cache
+      (if sb.cfg.refreshAfterSample = true then refreshCache (inj sb 1) else inj sb 1) := by
+    by_cases good : c.grace ≠ 0 ∧ c.refreshAfterSample = true
+    · rw [if_pos (by rw [hcfg]; exact good.2)]
+      exact h1.refresh.weakenT (fun i hi' => hi'.2)
+    · split
+      · exact h1.refresh.anyT good
+      · exact h1.toPIo.anyT good
+  generalize (if sb.cfg.refreshAfterSample = true then refreshCache (inj sb 1) else inj sb 1) = s2 at h2 ⊢
+  have h3 := populate_fold hi (tsNowOf sb) htn s2.cache (s2, 0) _ (fun i hi' => hi') h2
+  exact ⟨fl', _, h3.weakenT (fun j hj => hj.2 hj.1)⟩
 
-theorem PI.lateAll (h : PI none fl (fun _ => False) C s) :
+theorem PI.lateAll (h : PI c none fl (fun _ => False) C s) (hg0 : c.grace ≠ 0) (hr0 : c.refreshAfterSample = true) :
     PremI s → ∀ i ∈ s.registry, (s.th i).buf = [] → ∀ r ∈ (s.th i).qStmts, fl ≤ r.ts :=
-  fun hp i hi => (h.ord hp).late i hi (fun hf => hf)
+  fun hp i hi => (h.ord hg0 hr0 hp).late i hi (fun hf => hf)
 
 /-! ### the batch loop, a poll, the exit loop -/
 
-theorem PIo.batchLoop (hi : InjOK inj) (fuel : Nat) : ∀ s, PIo fl s → PIo fl (batchLoop inj fuel s) := by
+theorem PIo.batchLoop (hi : InjOK inj) (fuel : Nat) : ∀ s, PIo c fl s → PIo c fl (batchLoop inj fuel s) := by
   induction fuel with
   | zero => intro s h; exact h
   | succ n ih =>
@@ -79,12 +109,12 @@ theorem PIo.batchLoop (hi : InjOK inj) (fuel : Nat) : ∀ s, PIo fl s → PIo fl
     · exact h1
     · rename_i hnp
       have hg := h2 (by simpa using hnp)
-      have h3 := h1.processLowest hi (fun _ i hir hb r hr => by rw [hg i hir hb] at hr; cases hr)
+      have h3 := h1.processLowest hi (fun _ _ _ i hir hb r hr => by rw [hg i hir hb] at hr; cases hr)
       split
       · exact h3
       · exact ih _ (hi.pio h3 4)
 
-theorem PIo.poll (hi : InjOK inj) (h : PIo fl s) : ∃ fl', PIo fl' (poll inj s) := by
+theorem PIo.poll (hi : InjOK inj) (h : PIo c fl s) : ∃ fl', PIo c fl' (poll inj s) := by
   obtain ⟨fl', C', hp⟩ := h.populate hi
   refine ⟨fl', ?_⟩
   unfold Backend.poll
@@ -93,18 +123,18 @@ theorem PIo.poll (hi : InjOK inj) (h : PIo fl s) : ∃ fl', PIo fl' (poll inj s)
   simp only at hp ⊢
   split
   · split
-    · exact hp.toPIo.processLowest hi hp.lateAll
+    · exact hp.toPIo.processLowest hi (fun hg0 hr0 => hp.lateAll hg0 hr0)
     · exact hp.toPIo.batchLoop hi _ _
   · have h5 := hi.pio hp.toPIo 5
     have h6 := (h5.frame (core_flushSinks _)).checkFailures hi
     have h7 := h6.allEmpty
     split
-    · exact h7.cleanupContexts.cleanupLoggers
+    · exact h7.cleanupContexts.cleanupLoggers hi
     · exact h7
 
-theorem PIo.tick (h : PIo fl s) (dt : Nat) : PIo fl { s with now := s.now + dt } := PI.tick h dt
+theorem PIo.tick (h : PIo c fl s) (dt : Nat) : PIo c fl { s with now := s.now + dt } := PI.tick h dt
 
-theorem PIo.exitLoop (hi : InjOK inj) (tick fuel : Nat) : ∀ fl s, PIo fl s → ∃ fl', PIo fl' (exitLoop inj tick fuel s) := by
+theorem PIo.exitLoop (hi : InjOK inj) (tick fuel : Nat) : ∀ fl s, PIo c fl s → ∃ fl', PIo c fl' (exitLoop inj tick fuel s) := by
   induction fuel with
   | zero => intro fl s h; exact ⟨fl, h⟩
   | succ n ih =>
@@ -113,7 +143,7 @@ theorem PIo.exitLoop (hi : InjOK inj) (tick fuel : Nat) : ∀ fl s, PIo fl s →
     simp only
     have h1 := h.allEmpty
     split
-    · exact ⟨fl, ((h1.checkFailures hi).frame (core_flushSinks _)).cleanupContexts.cleanupLoggers⟩
+    · exact ⟨fl, ((h1.checkFailures hi).frame (core_flushSinks _)).cleanupContexts.cleanupLoggers hi⟩
     · have h2 := h1.tick tick
       obtain ⟨fl', C', hp⟩ := h2.populate hi
       rcases hpop : Backend.populate inj { (Backend.allEmpty s).1 with now := (Backend.allEmpty s).1.now + tick } with ⟨s1, count⟩
@@ -126,32 +156,59 @@ theorem PIo.exitLoop (hi : InjOK inj) (tick fuel : Nat) : ∀ fl s, PIo fl s →
 
 /-! ### every schedule -/
 
-/-- the global invariant between operations -/
-def GI (s : BSt) : Prop := ∃ fl, PIo fl s
+/-- the global invariant between operations (the configuration never changes) -/
+def GI (s : BSt) : Prop := ∃ fl, PIo s.cfg fl s
+
+theorem GI.of {s : BSt} (h : PIo c fl s) : GI s := ⟨fl, by rw [h.cfgEq]; exact h⟩
 
 theorem injOK_runInj (table : List (Nat × Nat × List FOp)) : InjOK (runInj table) :=
-  fun _ _ _ _ site h => h.runInj table site
+  fun _ _ _ _ _ site h => h.runInj table site
 
 theorem GI.applyOp {s : BSt} (h : GI s) (o : Op) : GI (applyOp s o).1 := by
   obtain ⟨fl, h⟩ := h
   cases o with
-  | front f => exact ⟨fl, (PI.applyFront h f).toPIo⟩
+  | front f => exact GI.of (PI.applyFront h f).toPIo
   | poll table =>
     simp only [Backend.applyOp]
     split
     · exact ⟨fl, h⟩
-    · exact PIo.poll (injOK_runInj table) (h.frame rfl)
+    · obtain ⟨fl', h'⟩ := PIo.poll (injOK_runInj table) (h.frame (s' := { s with siteCnt := [] }) rfl)
+      exact GI.of h'
   | exit =>
     simp only [Backend.applyOp]
     split
     · exact ⟨fl, h⟩
     · obtain ⟨fl', h'⟩ := PIo.exitLoop (injOK_runInj []) 1000 100000 fl _ (h.frame (s' := { s with siteCnt := [] }) rfl)
-      exact ⟨fl', h'.frame rfl⟩
+      refine GI.of (c := s.cfg) (fl := fl') ?_
+      exact h'.frame rfl
 
 theorem GI.runOps {s : BSt} (h : GI s) (ops : List Op) : GI (runOps s ops) := by
   unfold Backend.runOps
   induction ops generalizing s with
   | nil => exact h
   | cons o os ih => rw [List.foldl_cons]; exact ih (h.applyOp o)
+
+/-- the configuration is the same after every schedule -/
+theorem GI.cfg_runOps {s : BSt} (h : GI s) (ops : List Op) : (Backend.runOps s ops).cfg = s.cfg := by
+  unfold Backend.runOps
+  induction ops generalizing s with
+  | nil => rfl
+  | cons o os ih =>
+    rw [List.foldl_cons, ih (h.applyOp o)]
+    obtain ⟨fl, h⟩ := h
+    cases o with
+    | front f => exact (PI.applyFront h f).cfgEq
+    | poll table =>
+      simp only [Backend.applyOp]
+      split
+      · rfl
+      · obtain ⟨fl', h'⟩ := PIo.poll (injOK_runInj table) (h.frame (s' := { s with siteCnt := [] }) rfl)
+        exact h'.cfgEq
+    | exit =>
+      simp only [Backend.applyOp]
+      split
+      · rfl
+      · obtain ⟨fl', h'⟩ := PIo.exitLoop (injOK_runInj []) 1000 100000 fl _ (h.frame (s' := { s with siteCnt := [] }) rfl)
+        exact h'.cfgEq
 
 end Backend.PB
